@@ -301,6 +301,8 @@ func checkC05(c *Ctx, p *Prog, r *Result) {
 				if call, ok := st.Val.(*ssa.Call); ok && call.Common().IsInvoke() && call.Common().Method.Name() == "Sum" && len(call.Common().Args) == 1 {
 					if c, isC := call.Common().Args[0].(*ssa.Const); isC && c.IsNil() {
 						okv, detail = true, "Sum(nil): fresh buffer"
+					} else if _, isMk := call.Common().Args[0].(*ssa.MakeSlice); isMk {
+						okv, detail = true, "Sum(make(...)): fresh buffer"
 					} else {
 						detail = "Sum appends to an existing buffer (" + call.Common().Args[0].String() + "): may alias the received tag"
 					}
